@@ -336,9 +336,10 @@ theorem load_futures_in_order (md : Meta) (files : Files) : loadAllExec md files
 
 /-! ### super-run streams -/
 
-/-- sub-run spans of positive length in time order (what `superrun_transformation`, `split` and
-`concatenate` produce; ids in ANY order) survive the metadata json (`sort_keys=True`) and the
-constructor's stable sort by start -/
+/-- sub-run spans in time order, not overlapping, pairwise different in (start, end) — zero-length
+spans included (what `superrun_transformation`, `split` and `concatenate` produce; ids in ANY
+order) — survive the metadata json (`sort_keys=True`) and the constructor's stable sort by
+(start, end) -/
 theorem subruns_survive_json (sub : Runs) (h : spansOkB sub = true) :
     sortRuns (jsonRuns sub) = sub ∧ runsOverlap sub = false := by
   have := restorable_of_spansOk sub h
@@ -374,7 +375,7 @@ theorem roundtrip_plain_superrun (a0 : Int) (hdr : Header) (rid : String) (s : L
         simp [infosFrom, h3, h4, hl c (by simp), ih (i + 1) (fun c' hc' => hl c' (by simp [hc']))]
     simpa [metaOf] using this s 0 hrid
 
-/-! ### open finding C03-zero-length-subrun (witness) -/
+/-! ### fixed finding C03-zero-length-subrun (D31, /repo a608e2e) -/
 
 def exZero : Chunk :=
   { dataType := "d", kind := "k", runId := some "_s", start := 0, stop := 5, rows := [⟨1, 2, 0⟩],
@@ -382,26 +383,31 @@ def exZero : Chunk :=
 
 def exHdr : Header := { runId := "_s", dataType := "d", kind := "k", target := 1, pfx := "d-h" }
 
-/-- `roundtrip_plain_storable` needs `restorableRuns`, and that hypothesis cannot be dropped: the
-annotation `{"b": [0,0), "a": [0,5)}` (a zero-length span whose id sorts after its neighbour's) is
-kept as it is by the `subruns` setter of `Chunk.__init__` (sorted by start, not overlapping), the
-chunk is saved, and loading fails with ValueError — json `sort_keys` puts `a` first, the stable
-sort by start keeps it there, and `[0,5)` before `[0,0)` counts as overlapping.  The real code
-produces this chunk when the rechunker concatenates a zero-duration chunk of sub-run `b` with a
-chunk of sub-run `a` (known finding `C03-zero-length-subrun`, reproducer in notes/C03.md). -/
-theorem zero_length_subrun_counterexample :
-    (sortRuns [⟨"b", 0, 0⟩, ⟨"a", 0, 5⟩] = [⟨"b", 0, 0⟩, ⟨"a", 0, 5⟩] ∧ runsOverlap [⟨"b", 0, 0⟩, ⟨"a", 0, 5⟩] = false) ∧
-    ∃ md files, saveAll (-1) false exHdr [exZero] = .ok (md, files) ∧
-      loadAll md files = .error Err.valueError := by
-  constructor
-  · simp [sortRuns, runsOverlap, mergeSort_pair]
-  · refine ⟨metaOf exHdr [exZero], filesFrom exHdr.pfx 0 [exZero], ?_, ?_⟩
-    · rw [saveAll_eq, rechunkAll_off]; rfl
-    · have hov : runsOverlap (sortRuns (jsonRuns [⟨"b", 0, 0⟩, ⟨"a", 0, 5⟩])) = true := by
-        simp [jsonRuns, sortRuns, runsOverlap, mergeSort_pair]
-      have hmk := mkChunk_rejects_overlap "d" "k" (some "_s") 0 5 [⟨1, 2, 0⟩] (jsonRuns [⟨"b", 0, 0⟩, ⟨"a", 0, 5⟩]) none 1 hov
-      simp [loadAll, metaOf, infosFrom, infoFor, chunkInfoOf, exZero, exHdr, filesFrom, loadChunk, readFile,
-        hmk, bind, Except.bind, pure, Except.pure]
+/-- the `subruns` / `superrun` setters before the D31 fix: stable sort by start alone -/
+def sortRunsOld (rs : Runs) : Runs := rs.mergeSort (fun a b => decide (a.start ≤ b.start))
+
+/-- The OLD key: the annotation `{"b": [0,0), "a": [0,5)}` (what the rechunker builds from a
+zero-duration chunk of sub-run `b` followed by a chunk of sub-run `a`) was kept by the setter, but
+after the metadata json (`sort_keys`: `a` first) the stable sort by start alone left `a:[0,5)` before
+`b:[0,0)`, which `_sorted_subruns_check` rejects — saved data that could not be loaded.  The NEW key
+(start, end) puts the zero-length span first again whatever the ids. -/
+theorem zero_length_subrun_old_counterexample :
+    (sortRunsOld [⟨"b", 0, 0⟩, ⟨"a", 0, 5⟩] = [⟨"b", 0, 0⟩, ⟨"a", 0, 5⟩] ∧ runsOverlap [⟨"b", 0, 0⟩, ⟨"a", 0, 5⟩] = false) ∧
+    sortRunsOld (jsonRuns [⟨"b", 0, 0⟩, ⟨"a", 0, 5⟩]) = [⟨"a", 0, 5⟩, ⟨"b", 0, 0⟩] ∧
+    runsOverlap (sortRunsOld (jsonRuns [⟨"b", 0, 0⟩, ⟨"a", 0, 5⟩])) = true ∧
+    sortRuns (jsonRuns [⟨"b", 0, 0⟩, ⟨"a", 0, 5⟩]) = [⟨"b", 0, 0⟩, ⟨"a", 0, 5⟩] := by
+  simp [sortRunsOld, sortRuns, runLe, jsonRuns, runsOverlap, mergeSort_pair]
+
+/-- … and with the code as it is now the witness chunk round-trips -/
+theorem zero_length_subrun_roundtrip (a0 : Int) :
+    ∃ md files, saveAll a0 false exHdr [exZero] = .ok (md, files) ∧
+      loadAll md files = .ok [restore exHdr "_s" exZero] := by
+  have hs : spansOkB [⟨"b", 0, 0⟩, ⟨"a", 0, 5⟩] = true := by decide
+  have hst : storableB "_s" exZero = true :=
+    storable_of_annotated (by simp [annotatedOkB, exZero, rowsInside, hs])
+  refine ⟨metaOf exHdr [exZero], filesFrom exHdr.pfx 0 [exZero], ?_, ?_⟩
+  · rw [saveAll_eq, rechunkAll_off]; rfl
+  · simpa using loadAll_saved exHdr "_s" [exZero] (by simp) (by simpa using hst)
 
 /-! ### the rejecting branch the round trip relies on -/
 
@@ -448,9 +454,11 @@ def exSuper : Chunk :=
     rows := [⟨1, 2, 0⟩], subruns := some [⟨"b", 0, 9⟩], superrun := [⟨"_s", 0, 9⟩], target := 1 }
 example : storableB "_s" exSuper = true := by
   simp [exSuper, storableB, rowsInside, restorableRuns, jsonRuns, sortRuns, runsOverlap]
-/-- … and a zero-length subrun whose id sorts after its neighbour is not restorable -/
-example : restorableRuns (some [⟨"b", 0, 0⟩, ⟨"a", 0, 5⟩]) = false := by
-  simp [restorableRuns, jsonRuns, sortRuns, runsOverlap, List.mergeSort, List.MergeSort.Internal.splitInTwo]
+/-- … and a zero-length subrun whose id sorts after its neighbour is restorable since D31; two spans
+with the same (start, end) are the remaining tie -/
+example : restorableRuns (some [⟨"b", 0, 0⟩, ⟨"a", 0, 5⟩]) = true := restorable_of_spansOk _ (by decide)
+example : restorableRuns (some [⟨"b", 3, 3⟩, ⟨"a", 3, 3⟩]) = false := by
+  simp [restorableRuns, jsonRuns, sortRuns, runLe, runsOverlap, mergeSort_pair]
 
 /-- the hypotheses of `loaded_is_rechunker_output` on a concrete stream: two chunks with a gap of
 3991 ns between their rows, target one row — the rechunker moves the boundary from 10 to 3500,
@@ -486,6 +494,7 @@ def exAnnotated : Chunk :=
   { dataType := "d", kind := "k", runId := some "_s", start := 0, stop := 9, rows := [⟨1, 2, 0⟩, ⟨6, 8, 1⟩],
     subruns := some [⟨"z", 0, 4⟩, ⟨"a", 4, 9⟩], superrun := [⟨"_s", 0, 9⟩], target := 1 }
 example : [exAnnotated].all (annotatedOkB "_s") = true := by decide +kernel
-example : spansOkB [⟨"z", 0, 4⟩, ⟨"a", 4, 9⟩] = true ∧ spansOkB [⟨"b", 0, 0⟩, ⟨"a", 0, 5⟩] = false := by decide +kernel
+example : spansOkB [⟨"z", 0, 4⟩, ⟨"a", 4, 9⟩] = true ∧ spansOkB [⟨"b", 0, 0⟩, ⟨"a", 0, 5⟩] = true ∧
+    spansOkB [⟨"b", 3, 3⟩, ⟨"a", 3, 3⟩] = false := by decide
 
 end Strax.C03
